@@ -958,3 +958,48 @@ Proof.
     + destruct (server_tls13_finish_key _ _ _ _ _ _ _ H7 F Hc) as [mc [A [B C]]].
       exists mc. split; [exact A|]. split; [exact B|]. intros K. exact (check_chain_key_size _ _ _ _ C K).
 Qed.
+
+(* ---- TLS 1.3 PSK key-exchange mode (0 = psk_dhe_ke, 1 = psk_ke) ------------------------------ *)
+Lemma client_offer_psk_modes c ch m : client_offer c = Ok ch -> ch_psk_modes ch = Some m ->
+  m = st_psk_modes (cl_set c).
+Proof.
+  unfold client_offer. intros H.
+  destruct (if 3 <=? st_maxV (cl_set c) then Some (client_sigalgs (cl_set c)) else None) as [[|a l]|];
+    try (destruct fix_sigalg_assert; discriminate H); injection H as <-; cbn [ch_psk_modes];
+    destruct (_ && _); intros E; try discriminate E; injection E as <-; reflexivity.
+Qed.
+
+Definition psk_mode_of (fl : Flight) : Z := match fl_group fl with Some _ => 0 | None => 1 end.
+
+Lemma server_tls13_psk_mode s ch v suite scheme grp alpn fl sv i :
+  server_tls13 s ch v suite scheme grp alpn = Ok (fl, sv) -> fl_psk fl = Some i ->
+  memZ (psk_mode_of fl) (match ch_psk_modes ch with Some m => m | None => [] end) = true /\
+  memZ (psk_mode_of fl) (st_psk_modes (sv_set s)) = true.
+Proof.
+  intros H. unfold server_tls13 in H.
+  match type of H with context [index_where ?f ?l ?z] => set (IW := index_where f l z) in * end.
+  match type of H with bind (match ?p with _ => _ end) _ = _ => set (PSK := p) in * end.
+  destruct (match PSK with Some _ => _ | None => _ end) as [dhe|] eqn:ED; [|discriminate H].
+  cbn [bind] in H. injection H as <- _. unfold psk_mode_of. cbn [fl_psk fl_group].
+  destruct PSK as [[j ident]|]; [|discriminate].
+  intros _.
+  destruct (memZ 0 _ && memZ 0 _) eqn:A.
+  - injection ED as <-. apply andb_true_iff in A. exact A.
+  - destruct (memZ 1 _ && memZ 1 _) eqn:B; [|discriminate ED].
+    injection ED as <-. apply andb_true_iff in B. exact B.
+Qed.
+
+Lemma psk_mode_within_both c s o i : negotiate c s = Ok o -> fl_psk (oc_flight o) = Some i ->
+  In (psk_mode_of (oc_flight o)) (st_psk_modes (cl_set c)) /\
+  In (psk_mode_of (oc_flight o)) (st_psk_modes (sv_set s)).
+Proof.
+  intros H. apply negotiate_run in H. destruct H as
+    [ch v suite sig grp fl sv0 cv ccert cvalg npn sv H0 H1 Hv H2 H3 H4 H5 ->
+    |ch v suite sig grp fl0 sv00 alpn fl sv0 cv ccert cvalg sv H0 H1 Hv H2 H3 H4 H5 H6 H7 ->];
+  cbn [oc_flight]; intros P.
+  - destruct (server_legacy_facts _ _ _ _ _ _ H2) as [[_ [_ [F3 _]]] _]. rewrite F3 in P. discriminate P.
+  - destruct (server_tls13_psk_mode _ _ _ _ _ _ _ _ _ _ H5 P) as [A B].
+    split; [|apply memZ_In; exact B].
+    destruct (ch_psk_modes ch) as [m|] eqn:M; [|discriminate A].
+    rewrite <- (client_offer_psk_modes _ _ _ H0 M). apply memZ_In. exact A.
+Qed.
